@@ -13,6 +13,8 @@ def run(tier, a=None):
     cfgs = select_cfgs(tier, a)
     tf = type_filter(a)
     runner.run_families(res, cfgs, ["round"], tf, keytag="value")
+    # again with -frounding-math (no folding under the default-environment assumption)
+    runner.run_families(res, cfgs, ["round"], tf, keytag="value", strictfp=True)
     if tier == "quick":
         ftf = (lambda vt, cfg: vt.is_float and (tf is None or tf(vt, cfg)))
         runner.run_families(res, cfgs, FLOAT_FAMS, ftf, override="judge_fenv", keytag="fenv")
